@@ -1038,6 +1038,16 @@ class SCFGIO:
         scfg = SCFGIO.make_scfg(
             graph_dict, outer_graph, block_ref_dict, name_gen
         )
+        # The regions of the outermost graph are contained in the meta region,
+        # which keeps the name that was recorded for it.
+        for block in scfg.graph.values():
+            if isinstance(block, RegionBlock):
+                meta_name = graph_dict["blocks"][block.name].get(
+                    "parent_region"
+                )
+                if meta_name is not None:
+                    object.__setattr__(scfg.region, "name", meta_name)
+                object.__setattr__(block, "parent_region", scfg.region)
 
         return scfg, block_ref_dict
 
@@ -1109,6 +1119,9 @@ class SCFGIO:
                     block_info["exiting"],
                 )
                 block_info.pop("contains")
+                # The parent region is given by name, the actual RegionBlock
+                # is linked once it has been built (see below).
+                block_info.pop("parent_region", None)
 
             block_class = block_type_names[block_type]
             block = block_class(
@@ -1117,6 +1130,14 @@ class SCFGIO:
                 _jump_targets=block_edges,
                 **block_info,
             )
+            if isinstance(block, RegionBlock):
+                # Link the sub-graph and the regions it contains to the
+                # region that has just been built.
+                assert block.subregion is not None
+                object.__setattr__(block.subregion, "region", block)
+                for inner in block.subregion.graph.values():
+                    if isinstance(inner, RegionBlock):
+                        object.__setattr__(inner, "parent_region", block)
 
             scfg_graph[current_name] = block
             if current_name != exiting:
@@ -1158,6 +1179,9 @@ class SCFGIO:
         for b in sorted(blocks):
             ys += indent(f"'{b}':\n", " " * 8)
             for k, v in blocks[b].items():
+                # Strings are quoted, such that names like '0' are not read
+                # back as numbers.
+                v = repr(v) if isinstance(v, str) else v
                 ys += indent(f"{k}: {v}\n", " " * 12)
 
         ys += "\nedges:\n"
@@ -1201,10 +1225,9 @@ class SCFGIO:
                 raise TypeError("Block type not found.")
 
         seen = set()
-        q: Set[Tuple[str, BasicBlock]] = set()
-        # Order of elements doesn't matter since they're going to
-        # be sorted at the end.
-        q.update(scfg.graph.items())
+        # Work list of blocks still to be written. (This can not be a set,
+        # since blocks that carry a dict or a sub-graph are not hashable.)
+        q: List[Tuple[str, BasicBlock]] = list(scfg.graph.items())
 
         while q:
             key, value = q.pop()
@@ -1217,7 +1240,7 @@ class SCFGIO:
             if isinstance(value, RegionBlock):
                 assert value.subregion is not None
                 assert value.parent_region is not None
-                q.update(value.subregion.graph.items())
+                q.extend(value.subregion.graph.items())
                 blocks[key]["kind"] = value.kind
                 blocks[key]["contains"] = sorted(
                     [idx.name for idx in value.subregion.graph.values()]
@@ -1233,8 +1256,10 @@ class SCFGIO:
             elif isinstance(value, PythonBytecodeBlock):
                 blocks[key]["begin"] = value.begin
                 blocks[key]["end"] = value.end
-            edges[key] = sorted([i for i in value._jump_targets])
-            backedges[key] = sorted([i for i in value.backedges])
+            # The position of a jump target encodes the branch decision, the
+            # order must be kept.
+            edges[key] = [i for i in value._jump_targets]
+            backedges[key] = [i for i in value.backedges]
 
         graph_dict = {"blocks": blocks, "edges": edges, "backedges": backedges}
 
